@@ -104,14 +104,27 @@ def make_block_text(rng, b, layout):
                 lines.append('%s   %s' % (star, l))
         else:
             lines.append(head)
+    tags = list(b['tags'])
+    if layout.get('returns_as_param') and tags and tags[0]['name'] == 'Returns':
+        # the return value documented in the parameter section, as "@returns:"
+        t = tags.pop(0)
+        head = '%s @returns:' % star
+        if t.get('anns'):
+            head += ' ' + ' '.join(render_ann(a) for a in t['anns']) + (':' if t['desc'] else '')
+        if t['desc']:
+            lines.append(head + ' ' + t['desc'][0])
+            for l in t['desc'][1:]:
+                lines.append('%s   %s' % (star, l) if l else star)
+        else:
+            lines.append(head)
     if b['desc']:
         lines.append(star)
         for para in b['desc']:
             for l in para:
                 lines.append(star + (' ' + l if l else ''))
-    if b['tags']:
+    if tags:
         lines.append(star)
-        for t in b['tags']:
+        for t in tags:
             head = '%s %s:' % (star, t['name'])
             if t.get('anns'):
                 head += ' ' + ' '.join(render_ann(a) for a in t['anns']) + (':' if t['desc'] else '')
@@ -120,7 +133,7 @@ def make_block_text(rng, b, layout):
             if t['desc']:
                 lines.append(head + ' ' + t['desc'][0])
                 for l in t['desc'][1:]:
-                    lines.append('%s   %s' % (star, l))
+                    lines.append('%s   %s' % (star, l) if l else star)        # an empty line: the next paragraph of the tag
             else:
                 lines.append(head)
     lines.append(ind + ' */')
@@ -153,6 +166,16 @@ def gen_block(rng, i):
         if len(d) >= 2 and rng.random() < 0.25:
             # a wrapped description whose second line begins with a parenthesised word: text, not an annotation
             d[1] = rng.choice(['(see below)', '(optional)', '(nullable) really', '(skip)']) + ' ' + d[1]
+        elif len(d) >= 2 and rng.random() < 0.25:
+            # ... or with a tag word and a colon: on an indented continuation line that is text, not a tag
+            d[-1] = rng.choice(['Since:', 'Returns:', 'deprecated:', 'Stability:']) + ' ' + d[-1]
+        return d
+
+    def tdesc(n):
+        # tags only: a description of several paragraphs (an empty line inside the description of a tag)
+        d = pdesc(n)
+        if len(d) >= 2 and rng.random() < 0.3:
+            d.insert(1, '')
         return d
     b = dict(name=name, anns=anns(rng.choice([0, 0, 1, 2])), params=[], desc=[], tags=[])
     for j in range(rng.randint(0, 4) if kind < 0.6 else 0):
@@ -162,15 +185,17 @@ def gen_block(rng, i):
     b['params'] = [p for p in b['params'] if not (p['name'] in names or names.add(p['name']))]
     for _ in range(rng.choice([0, 1, 1, 2])):
         para = [sentence() for _ in range(rng.randint(1, 3))]
+        if len(para) >= 2 and rng.random() < 0.25:
+            para[-1] = '  ' + rng.choice(['Since:', 'Returns:', 'Deprecated:']) + ' ' + para[-1]      # an indented list item, not a tag
         b['desc'].append(para + [''])
     if b['desc']:
         b['desc'][-1] = b['desc'][-1][:-1]
     if rng.random() < 0.6 and kind < 0.6:
-        b['tags'].append(dict(name='Returns', anns=anns(rng.choice([0, 1, 2])), desc=pdesc(rng.choice([0, 1, 2]))))
+        b['tags'].append(dict(name='Returns', anns=anns(rng.choice([0, 1, 2])), desc=tdesc(rng.choice([0, 1, 2, 3]))))
     if rng.random() < 0.4:
         b['tags'].append(dict(name='Since', value=rng.choice(['1.2', '0.10', '3']), desc=[sentence()] if rng.random() < 0.3 else []))
     if rng.random() < 0.3:
-        b['tags'].append(dict(name='Deprecated', value=rng.choice(['1.4', '2.0']), desc=[sentence()] if rng.random() < 0.7 else []))
+        b['tags'].append(dict(name='Deprecated', value=rng.choice(['1.4', '2.0']), desc=tdesc(rng.choice([1, 2, 3])) if rng.random() < 0.7 else []))
     if rng.random() < 0.2:
         b['tags'].append(dict(name='Stability', value=rng.choice(['Stable', 'Unstable', 'Private']), desc=[]))
     return b
@@ -213,7 +238,7 @@ def block_view(blk):
 def expected_view(b, cont='  ', wrapped_cont=None):
     def dj(lines, c=None):
         c = cont if c is None else c
-        return '\n'.join([lines[0]] + [c + l for l in lines[1:]]) if lines else None
+        return '\n'.join([lines[0]] + [c + l if l else '' for l in lines[1:]]) if lines else None
     desc = None
     if b['desc']:
         ls = [l for para in b['desc'] for l in para]
@@ -342,9 +367,12 @@ def main(tier, seed):
         want = expected_view(b)
         base_layout = dict(newline='\n', indent='', colon=True, wrap_anns=False)
         layouts = [base_layout, dict(base_layout, newline='\r\n'), dict(base_layout, newline='\r'), dict(base_layout, indent='    '),
-                   dict(base_layout, indent='\t'), dict(base_layout, wrap_anns=True), dict(base_layout, colon=False, wrap_anns=rng.random() < 0.5)]
+                   dict(base_layout, indent='\t'), dict(base_layout, wrap_anns=True), dict(base_layout, colon=False, wrap_anns=rng.random() < 0.5),
+                   dict(base_layout, returns_as_param=True)]
         first = None
         for lay in layouts:
+            if lay.get('returns_as_param') and any(t['name'] == 'Returns' and '' in t['desc'] for t in b['tags']):
+                continue        # in the parameter section an empty line ends the parameters: no paragraphs there
             text = make_block_text(rng, b, lay)
             try:
                 blk = parser.parse_comment_block(text, '/src/foo.c', 100)
